@@ -101,3 +101,34 @@ def session_cases(files, count, seed):
         out.append(dict(id="sess-%d-%d" % (seed, len(out)), mem=[], al=0, calls=calls,
                         desc=dict(area="session", slots=[c["slot"] for c in seq], seed=seed)))
     return out
+
+
+def hsession_cases(files, count, seed):
+    """header side: construct -> build -> the built bytes become the image -> load -> walk -> getters / fields -> Debug"""
+    hb_file, hfields_file = files[0], files[1]
+    rng = random.Random(seed)
+    tpl = templates(hb_file, "hb_set")
+    reads = {}
+    for line in open(hfields_file):
+        c = json.loads(line)
+        for call in c["calls"]:
+            if call.get("op") in ("hget", "hfield"):
+                reads.setdefault(call["kind"], {})[json.dumps(call, sort_keys=True)] = call
+    reads = {k: list(v.values()) for k, v in reads.items()}
+    slots = sorted(tpl)
+    out = []
+    while len(out) < count:
+        k = rng.randrange(0, len(slots) + 1)
+        seq = [rng.choice(tpl[s]) for s in rng.sample(slots, k)]
+        for _ in range(rng.choice([0, 0, 1, 2])):
+            s = rng.choice(slots)
+            seq.insert(rng.randrange(len(seq) + 1), rng.choice(tpl[s]))
+        calls = [{"op": "hb_new", "arch": rng.choice([0, 4])}] + seq + [{"op": "hb_build"}, {"op": "use_built", "which": "header"}, {"op": "hload"}]
+        calls += [{"op": "hacc", "f": f} for f in ("header_magic", "arch", "length", "checksum", "verify_checksum")]
+        calls += [{"op": "htags", "it": 0}, {"op": "count", "it": 0}] + [{"op": "next", "it": 0}] * (len(seq) + 3)
+        for kind in sorted(reads):
+            calls += reads[kind]
+        calls += [{"op": "hdbg", "what": "hdr"}, {"op": "hb_load"}]
+        out.append(dict(id="hsess-%d-%d" % (seed, len(out)), mem=[], al=0, calls=calls,
+                        desc=dict(area="hsession", slots=[c["slot"] for c in seq], seed=seed)))
+    return out
